@@ -256,6 +256,20 @@ PROPS["C11"] = dict(
     design_ref="DESIGN.md section 4, C11",
 )
 
+PROPS["C15"] = dict(
+    level="proof",
+    verus=["c15_csp", "c01_lookup", "c05_optimizer"],
+    labels=["C15.", "C01.check_all.", "C05.select."] + MASK,
+    kani=[],
+    trusted=["R6: the `difference` + comma-join tail is lifted: its contract is 'None iff nothing remains, else the directive set of the string is enabled minus disabled'",
+             "&str / String obey the hash key model (vstd axiom)", "csp option parsing (implies document+subdocument, rejects explicit types): NetworkFilter::parse is not under contract"],
+    assumptions=[],
+    level_text="Verus proves get_csp_directives: no policy for non-(sub)document requests, none when a matching active csp exception carries no directive, otherwise exactly the directives of the matching active csp rules "
+               "minus those of the matching csp exceptions (over check_all's contract, proved in c01_lookup, with the enabled tags); csp rules are never fused (C05.select)",
+    level_note="the join/difference tail and rule parsing are trusted",
+    design_ref="DESIGN.md section 4, C15",
+)
+
 for _p in PROPS.values():
     _p.setdefault("technique", TECH)
     _p.setdefault("explanation", "")
